@@ -4,6 +4,9 @@ CONSTANTS
   ROSChoices = {TRUE, FALSE}
   RefOutcomes = {"nil", "err"}
   CloseLate = FALSE
+  StopOnCancel = FALSE
+  SctxInit = {"live", "cancelled"}
+  CancelUpTo = 2
   AllowTBD = FALSE
-INVARIANTS WEmit OneRefreshPerTick ErrorsHandledOnce ScheduleConsulted SequentialNoRefreshAfterShutdown DoneClosedFirst WindowNeverTicks ShutdownResult
+INVARIANTS WEmit OneRefreshPerTick ErrorsHandledOnce ScheduleConsulted SequentialNoRefreshAfterShutdown DoneClosedFirst WindowNeverTicks StopsOnlyOnShutdown ShutdownResult
 CHECK_DEADLOCK FALSE
